@@ -4,7 +4,7 @@ from __future__ import annotations
 
 from hypothesis import strategies as st
 
-from .. import env, gen, observe
+from .. import env, gen, observe, xmlw
 from ..canon import diff, fingerprint
 from ..harness import Disc, Sub
 from ..observe import call, key_of, _raised
@@ -106,10 +106,25 @@ def oracle(case):
     u = case['universe']
     env.fresh_db()
     ref = RefDB()
-    for d in u['lexicons']:
+    work = None
+    for i, d in enumerate(u['lexicons']):
         r = {'lmf_version': u['lmf_version'], 'lexicons': [d]}
-        wn.add_lexical_resource(r, progress_handler=None)
+        # alternate the two public install paths, and navigate in default mode between the
+        # adds: what a later add contributes must be visible afterwards (nothing about the
+        # lexicon families may be remembered from before the add)
+        if i % 2:
+            if work is None:
+                work = env.new_dir('c10')
+            wn.add(xmlw.write(r, work / f'l{i}.xml', None), progress_handler=None)
+        else:
+            wn.add_lexical_resource(r, progress_handler=None)
         ref.add_resource(r)
+        w0 = wn.Wordnet(expand='')
+        for wd in w0.words():
+            for sn in wd.senses():
+                call(sn.synset)
+        for ss in w0.synsets():
+            ss.senses()
     sel = case['selection']
     if sel['lexicon']:
         specs = sel['lexicon'].split()
